@@ -10,11 +10,12 @@ use std::collections::BTreeMap;
 pub struct Alone {
     answers: BTreeMap<(String, u8, Op), Answer>,
     has_cycle: BTreeMap<String, bool>,
+    opens: BTreeMap<(String, u8), bool>,
 }
 
 impl Alone {
     pub fn new() -> Alone {
-        Alone { answers: BTreeMap::new(), has_cycle: BTreeMap::new() }
+        Alone { answers: BTreeMap::new(), has_cycle: BTreeMap::new(), opens: BTreeMap::new() }
     }
     pub fn answer(&mut self, doc: &Doc, tolerant: bool, op: &Op) -> Answer {
         self.answer_opts(doc, if tolerant { ops::OPTS_TOLERANT } else { ops::OPTS_STRICT }, op)
@@ -38,6 +39,17 @@ impl Alone {
         }
         self.answers.insert(key, a.clone());
         a
+    }
+    /// Does the document open without caches under these options?
+    pub fn opens(&mut self, doc: &Doc, bits: u8) -> bool {
+        let key = (doc.label.clone(), bits);
+        if let Some(b) = self.opens.get(&key) {
+            return *b;
+        }
+        let ctl = SimCtl::new(false, false);
+        let b = ops::open_opts(&doc.bytes, &ctl, bits, &doc.password).is_ok();
+        self.opens.insert(key, b);
+        b
     }
     /// A document "has a typed reference cycle" when a right-typed strict load of one of its
     /// objects, run alone and uncached, fails with the recursion guard's error.
